@@ -248,7 +248,7 @@ theorem step_KMono (cfg : Cfg) (hd : cfg.debug = true) (o : Op) (L : Lexer) (h :
     KMono (step cfg o L).2 := by
   cases o <;> simp only [step]
   case rest | lastTok | lastDefaultTok | secondLastDefaultTok | hasCheckpoint | nesting | modeDepth | hasMark
-     | litIsEmpty => exact h
+     | litIsEmpty | loopProbe => exact h
   case pendingText => exact h.pendingTextFrom _ _ _
   case pendingTextToMark => exact h.pendingTextFrom _ _ _
   case pendingTextWithPrev => exact h.pendingTextFrom _ _ _
@@ -305,7 +305,6 @@ theorem step_KMono (cfg : Cfg) (hd : cfg.debug = true) (o : Op) (L : Lexer) (h :
     · exact h'.ofToks id rfl
     · exact (h'.addStringLiteralFromSrc (cfg := cfg) L.lit.lastEnd (some (L.curByte - back))).ofToks id rfl
   case litAddDecoded cs => exact h.ofToks id rfl
-  case loopCheck => split <;> first | exact h | exact h.ofToks id rfl
   case emitEofAtCursor => exact (h.lastLineOrAdd (cfg := cfg)).bufAddToken hd _
   case dassert c m => exact h.dassert c m
   case panic m => exact h.panic m
